@@ -76,12 +76,12 @@ func (a Alphabet) Assignment(i int) Assign {
 type Mode int
 
 const (
-	Stated          Mode = iota
-	Classical            // plain boolean negation: "not l:v" holds when l is absent
-	NoGateSwap           // negation flips the leaves but keeps and/or as written
-	NoLeafFlip           // negation swaps and/or but keeps the leaf polarity
-	NegAnyPresent        // negated leaf holds whenever the label is present (ignores the value)
-	PosAnyPresent        // positive leaf holds whenever the label is present
+	Stated        Mode = iota
+	Classical          // plain boolean negation: "not l:v" holds when l is absent
+	NoGateSwap         // negation flips the leaves but keeps and/or as written
+	NoLeafFlip         // negation swaps and/or but keeps the leaf polarity
+	NegAnyPresent      // negated leaf holds whenever the label is present (ignores the value)
+	PosAnyPresent      // positive leaf holds whenever the label is present
 )
 
 // Eval evaluates the formula on an attribute set under the stated semantics.
